@@ -445,6 +445,12 @@ func judgePercentText(c TextCase, o *vh.Obs) {
 		val, exp, member, fits, allowed = v, e+2, m, f, "pattern"
 	} else if v, e, m, f := refParse(s, amountRe, false); m {
 		val, exp, member, fits, allowed = v, e, m, f, "factor-form"
+		// a factor with fewer than two decimals is written with its digits
+		// multiplied: what then no longer fits in 64 bits cannot be written as a
+		// percentage at all, and is a different number if it is read anyway
+		if f && e < 2 && !new(big.Int).Mul(v, ratref.Pow10(2-e)).IsInt64() {
+			fits = false
+		}
 	} else if s == "" {
 		val, exp, member, fits, allowed = big.NewInt(0), 0, true, true, "empty"
 	}
@@ -527,7 +533,13 @@ func judgePercentText(c TextCase, o *vh.Obs) {
 			}
 			// whatever was read can be written again and read back as the same value
 			back := r.p.String()
-			if p2, err := num.PercentageFromString(back); err != nil || !percentRe.MatchString(back) || p2.Compare(r.p) != 0 {
+			same := func(p2 num.Percentage) bool {
+				// exact, not through the library's own comparison
+				l := new(big.Int).Mul(big.NewInt(p2.Value()), ratref.Pow10(exp))
+				r := new(big.Int).Mul(val, ratref.Pow10(int(p2.Exp())))
+				return l.Cmp(r) == 0
+			}
+			if p2, err := num.PercentageFromString(back); err != nil || !percentRe.MatchString(back) || !same(p2) {
 				o.Failf("percent-text:rewrite", "%s(%.60q) was read as value %s exp %d but is written back as %.60q, which reads as %v (%v)", r.path, s, val, exp, back, p2, err)
 			}
 			continue
@@ -536,6 +548,9 @@ func judgePercentText(c TextCase, o *vh.Obs) {
 			why := "not a member of the published pattern (nor the documented factor form)"
 			if member {
 				why = "its digits do not fit in 64 bits"
+				if allowed == "factor-form" {
+					why = "the percentage it stands for cannot be written in 64 bits"
+				}
 			}
 			o.Failf("percent-text:accepted-invalid", "%s(%q) accepted as value %d exp %d although %s", r.path, s, r.p.Value(), r.p.Exp(), why)
 			continue
@@ -701,7 +716,7 @@ func init() {
 		"Round trips (the bytes returned for one value are read again after other values were written: they are the caller's): amounts over all of int64 (edges, powers of ten, fewer digits than decimals) x 0-18 decimals; percentages of either sign x 0-16 decimals, including values beyond float64 exactness. Strings: members of the published pattern (1-21 digits per part), near misses by one edit from a hostile alphabet (signs, separators, exponents, spaces, NBSP, non-ASCII digits, empty parts), digit strings straddling int64 with the dot at every position, and a fixed list; each through AmountFromString/UnmarshalText/UnmarshalJSON/encoding-json quoted and bare/YAML. Non-trivial: the string is not a pattern member, or overflows 64 bits, or is within 4 bits of the int64 edge, or the amount is negative with decimals. Reference reader: published regexp AND big-integer range check.",
 		"the pattern published in data/schemas/num/*.json is the referee for membership",
 		"JSON null (and the literal text null that carries it to UnmarshalText) is a no-op by encoding/json convention",
-		"percentages also accept the documented factor form without % and the empty string (asserted by existing tests)",
+		"percentages also accept the documented factor form without % (as long as the percentage it stands for can be written in 64 bits) and the empty string (asserted by existing tests)",
 		"a text with more than 1000 decimals may be refused: the writer gives up there (TestPercentageString pins \"NA%\"); when such a text is read it must be written back exactly",
 	)
 	vh.Rapid("amount_roundtrip", 200_000, 6_000_000, genAmountCase, judgeAmountRoundTrip)
